@@ -1,6 +1,7 @@
 package main
 
 import (
+	"bytes"
 	"context"
 	"encoding/binary"
 	"errors"
@@ -11,6 +12,7 @@ import (
 	"time"
 
 	dht "github.com/anacrolix/dht/v2"
+	"github.com/anacrolix/dht/v2/krpc"
 )
 
 func init() { commands["C07"] = runC07 }
@@ -36,6 +38,9 @@ func runC07(r *Run) {
 	}
 	for i := 0; i < r.n(40, 600) && !r.c14Full(); i++ {
 		r.c07Unsent(i)
+	}
+	for i := 0; i < r.n(30, 400) && !r.c14Full(); i++ {
+		r.c07Burst(i)
 	}
 	// varint issuer: differential on many counters
 	for i := 0; i < r.n(3000, 100000); i++ {
@@ -556,4 +561,86 @@ func (r *Run) c07Unsent(i int) {
 	r.hist(fmt.Sprintf("unsent-then-next/rounds=%d", rounds))
 	r.count(fmt.Sprint(events), true)
 	r.Result.TracesValidated++
+}
+
+// A burst: while the node is busy with one datagram (its query hook is slow), several more arrive back to back,
+// among them the large genuine reply to an outstanding query and, behind it, an equally large response under the same
+// transaction ID from another address. The query completes with what its own peer sent, whatever arrives around it.
+func (r *Run) c07Burst(i int) {
+	conn := newFakeConn(nil)
+	cfg := baseConfig(conn)
+	cfg.QueryResendDelay = func() time.Duration { return time.Hour }
+	gate := make(chan struct{})
+	var inHook atomic.Bool
+	z := udp(net.IP{198, 51, 100, byte(1 + r.rng.Intn(200))}, 7100)
+	cfg.OnQuery = func(q *krpc.Msg, src net.Addr) bool {
+		if src.String() == z.String() && !inHook.Swap(true) {
+			<-gate
+		}
+		return true
+	}
+	s, err := dht.NewServer(cfg)
+	if err != nil {
+		panic(err)
+	}
+	defer s.Close()
+	x := udp(net.IP{198, 51, 101, byte(1 + r.rng.Intn(200))}, 7101)
+	y := udp(net.IP{198, 51, 102, byte(1 + r.rng.Intn(200))}, 7102)
+	done := make(chan dht.QueryResult, 1)
+	go func() { done <- s.Query(context.Background(), dht.NewAddr(x), "ping", dht.QueryInput{NumTries: 1}) }()
+	rep := map[string]interface{}{"scenario": i}
+	if !waitFor(func() bool { return conn.numWrites() >= 1 }, 5*time.Second) {
+		r.violation("query was not sent", rep)
+		close(gate)
+		return
+	}
+	v, _, _ := bdecode(conn.writes()[0].B)
+	t, _ := v.get("t").str()
+	var idX, idY, idZ [20]byte
+	r.rng.Read(idX[:])
+	r.rng.Read(idY[:])
+	r.rng.Read(idZ[:])
+	padLen := []int{200, 5000, 30000, 60000}[r.rng.Intn(4)]
+	padX, padY := bytes.Repeat([]byte{'x'}, padLen), bytes.Repeat([]byte{'y'}, padLen)
+	genuine := bD("t", bB(t), "y", bS("r"), "r", bD("id", bB(idX[:])), "zpad", bB(padX)).enc()
+	other := bD("t", bB(t), "y", bS("r"), "r", bD("id", bB(idY[:])), "zpad", bB(padY)).enc()
+	conn.inject(bD("t", bS("zz"), "y", bS("q"), "q", bS("ping"), "a", bD("id", bB(idZ[:]))).enc(), z)
+	if !waitFor(func() bool { return inHook.Load() }, 5*time.Second) {
+		r.violation("query hook was not called for a ping", rep)
+		close(gate)
+		return
+	}
+	// the burst, queued while the node is inside its hook
+	order := r.rng.Intn(3)
+	rep["order"], rep["size"] = order, len(genuine)
+	switch order {
+	case 0:
+		conn.inject(genuine, x)
+		conn.inject([]byte("d1:y1:qe"), y)
+		conn.inject(other, y)
+	case 1:
+		conn.inject([]byte("junk"), y)
+		conn.inject(genuine, x)
+		conn.inject(other, y)
+		conn.inject(other, y)
+	default:
+		conn.inject(other, y)
+		conn.inject(genuine, x)
+		conn.inject(other, y)
+		conn.inject(other, y)
+	}
+	close(gate)
+	select {
+	case res := <-done:
+		switch {
+		case res.Err != nil:
+			r.violation("query failed although its peer's reply arrived: "+res.Err.Error(), rep)
+		case res.Reply.R == nil || [20]byte(res.Reply.R.ID) != idX:
+			r.violation("query completed with content its peer did not send (bytes of another datagram of the burst)", rep)
+		}
+	case <-time.After(5 * time.Second):
+		r.violation("query not completed by its peer's reply, which arrived in a burst of datagrams", rep)
+	}
+	r.hist(fmt.Sprintf("burst/order%d/size%d", order, padLen))
+	r.count(fmt.Sprintf("burst %d %d %d", i, order, padLen), true)
 }
